@@ -312,7 +312,11 @@ def write_evidence(prop, tier, seed, level, coverage, assumptions, wall_s, viola
 
 def merge_counts(dst, src):
     for k, v in (src or {}).items():
-        if isinstance(v, dict):
+        if k == "max" and isinstance(v, dict):  # worst observed values: merged by maximum, not summed
+            d = dst.setdefault("max", {})
+            for kk, vv in v.items():
+                d[kk] = max(d.get(kk, vv), vv)
+        elif isinstance(v, dict):
             merge_counts(dst.setdefault(k, {}), v)
         elif isinstance(v, (int, float)) and not isinstance(v, bool):
             dst[k] = dst.get(k, 0) + v
